@@ -13,7 +13,7 @@
 From Coq Require Import List Ascii String ZArith NArith Bool Lia Classical_Prop.
 From Anthem Require Import Base.ISet Base.Fresh Syntax.Fol Syntax.Asp Sem.Domain Sem.Sat
   Model.Break Model.Problem Model.Outline Model.Strong Model.External
-  Proofs.SemBase Proofs.BreakOk Proofs.DecomposeOk Proofs.StrongOk Proofs.ExternalOk Proofs.RenameOk.
+  Proofs.SemBase Proofs.ExtendAll Proofs.BreakOk Proofs.DecomposeOk Proofs.StrongOk Proofs.ExternalOk Proofs.RenameOk Proofs.HeadPred.
 Import ListNotations.
 Open Scope string_scope.
 Open Scope list_scope.
@@ -292,3 +292,175 @@ Proof.
   destruct (dir_forward (vt_direction vt)), (dir_backward (vt_direction vt));
     rewrite ?Hf, ?Hb; reflexivity.
 Qed.
+
+(* ------------------------------------------------------------------ the proof outline does not depend on `taken` *)
+Lemma definition_indep f taken taken' p w p' w' :
+  definition f taken = Ok (p, w) -> definition f taken' = Ok (p', w') -> p = p' /\ w = w'.
+Proof.
+  unfold definition. destruct f as [| | |q variables g]; try discriminate.
+  destruct q; try discriminate. destruct g as [| |c lhs rhs|]; try discriminate.
+  destruct c; try discriminate. destruct lhs as [[| |s ts|]| | |]; try discriminate.
+  destruct (Nat.ltb _ _); try discriminate.
+  destruct (terms_as_vars ts []) as [tv|]; try discriminate.
+  destruct (negb (set_eqb var_dec _ tv)); try discriminate.
+  destruct (memb pred_dec _ taken); try discriminate. destruct (memb pred_dec _ taken'); try discriminate.
+  destruct (negb (subsetb var_dec (free_variables rhs) _)); try discriminate.
+  destruct (negb (subsetb pred_dec (predicates rhs) taken)); try discriminate.
+  destruct (negb (subsetb pred_dec (predicates rhs) taken')); try discriminate.
+  intros [= <- <-] [= <- <-]. auto.
+Qed.
+
+Lemma from_specification_loop_indep m : forall l taken taken' o ws ws' o1 w1 o2 w2,
+  from_specification_loop l taken m o ws = Ok (o1, w1) ->
+  from_specification_loop l taken' m o ws' = Ok (o2, w2) -> o1 = o2.
+Proof.
+  induction l as [|anf0 l IH]; intros taken taken' o ws ws' o1 w1 o2 w2; cbn [from_specification_loop].
+  - intros [= <- _] [= <- _]. reflexivity.
+  - destruct (an_role (rp_annot m anf0)); try discriminate.
+    + destruct (general_lemma_try_from _) as [g|e|]; try discriminate. apply IH.
+    + destruct (definition _ taken) as [[p w]|e|] eqn:E1; try discriminate.
+      destruct (definition _ taken') as [[p' w']|e|] eqn:E2; try discriminate.
+      destruct (definition_indep _ _ _ _ _ _ _ E1 E2) as [<- <-]. apply IH.
+    + destruct (general_lemma_try_from _) as [g|e|]; try discriminate. apply IH.
+Qed.
+Lemma from_specification_indep s m taken taken' o1 w1 o2 w2 :
+  from_specification s taken m = Ok (o1, w1) -> from_specification s taken' m = Ok (o2, w2) -> o1 = o2.
+Proof. apply from_specification_loop_indep. Qed.
+
+(* ------------------------------------------------------------------ from the task *)
+Section Task.
+Variable is_tight : program -> bool.
+Variable has_private_recursion : program -> list pred -> bool.
+Variable tau_star : program -> theory.
+Variable completion : theory -> list pred -> option theory.
+Variable simp_classic : formula -> formula.
+Notation decompose_ext := (external_decompose is_tight has_private_recursion tau_star completion simp_classic).
+Notation translate := (theory_translate tau_star completion simp_classic).
+
+Definition task_m (t : ext_task) : placeholders := ph_of_fconsts (ug_placeholders (et_user_guide t)).
+Definition task_public (t : ext_task) : list pred := ug_public_predicates (et_user_guide t).
+Definition task_renaming (t : ext_task) : list (pred * string) :=
+  map (fun p => (p, "p")) (iset_inter pred_dec (task_spec_private t) (task_prog_private t)).
+
+(* the left and right formula lists handed to the validated task *)
+Definition side_left (t : ext_task) : option specification :=
+  match et_specification t with
+  | inl p => option_map (control_translate (task_public t)) (translate t (task_m t) p)
+  | inr s => Some (rp_spec (task_m t) s)
+  end.
+Definition side_right (t : ext_task) : option specification :=
+  option_map (fun rt => map (rename_predicates_annot (task_renaming t)) (control_translate (task_public t) rt))
+             (translate t (task_m t) (et_program t)).
+Definition task_taken (t : ext_task) (lft rgt : list aformula_annot) : list pred :=
+  extend_all pred_dec (fun a => predicates (an_formula a))
+    (extend_all pred_dec (fun a => predicates (an_formula a)) (ug_input_predicates (et_user_guide t)) lft) rgt.
+
+(* the validated task behind an accepted task (None: a translation panicked, or the user guide /
+   the proof outline was refused) *)
+Definition task_validated (t : ext_task) : option validated_task :=
+  match side_left t, side_right t with
+  | Some lft, Some rgt =>
+      match user_guide_assumptions (ug_output_predicates (et_user_guide t)) (task_m t) (ug_formulas (et_user_guide t)) [] [] with
+      | Ok (uga, _) =>
+          match from_specification (et_proof_outline t) (task_taken t lft rgt) (task_m t) with
+          | Ok (o, _) => Some (mkvalidated lft rgt uga o (et_decomposition t) (et_direction t) (et_break t))
+          | _ => None
+          end
+      | _ => None
+      end
+  | _, _ => None
+  end.
+
+Lemma external_task_validated t w pbs : decompose_ext t = Ok (w, pbs) ->
+  exists vt w3, task_validated t = Some vt /\ validated_decompose vt = Ok (w3, pbs).
+Proof.
+  intros H. unfold external_decompose in H. cbv zeta in H.
+  unfold task_validated, side_left, side_right, task_taken, task_m, task_public, task_renaming,
+    task_spec_private, task_prog_private.
+  destruct (external_validate is_tight has_private_recursion t) as [w0|e|]; try discriminate.
+  match type of H with match ?x with _ => _ end = _ => destruct x as [lft|] eqn:EL end; [|discriminate].
+  match type of H with match ?x with _ => _ end = _ => destruct x as [rt|] eqn:ER end; [|discriminate].
+  cbn [option_map].
+  match type of H with match ?x with _ => _ end = _ => destruct x as [[uga w1]|e|] eqn:EU end; try discriminate.
+  match type of H with match ?x with _ => _ end = _ => destruct x as [[o pw]|e|] eqn:EO end; try discriminate.
+  match type of H with match ?x with _ => _ end = _ => destruct x as [[w3 pbs']|e|] eqn:EV end; try discriminate.
+  injection H as _ <-. eexists _, _. split; [reflexivity|exact EV].
+Qed.
+
+(* the two hypotheses on the simplification component *)
+Hypothesis simp_sound : forall FI M f, cvalid FI M (simp_classic f) <-> cvalid FI M f.
+Hypothesis simp_roles : forall ins p m D,
+  completion (rp_theory m (tau_star p)) ins = Some D ->
+  forall f, In f D -> head_predicate (simp_classic f) = head_predicate f.
+
+Lemma annot_map_sim a : annot_sim (annot_map simp_classic a) a.
+Proof. split; [reflexivity|]. split; [reflexivity|]. intros FI M. apply simp_sound. Qed.
+
+(* the translated theories of one program under two settings of the flags: same roles, same
+   directions, equivalent formulas *)
+Lemma translate_sim t t' p th th' :
+  et_user_guide t = et_user_guide t' ->
+  translate t (task_m t) p = Some th -> translate t' (task_m t') p = Some th' ->
+  Forall2 annot_sim (control_translate (task_public t) th) (control_translate (task_public t') th').
+Proof.
+  intros Eu. unfold theory_translate, task_m, task_public. rewrite <- Eu.
+  destruct (completion _ _) as [D|] eqn:HD; [|discriminate]. intros [= <-] [= <-].
+  pose proof (simp_roles _ _ _ _ HD) as Hr.
+  unfold control_translate.
+  destruct (et_simplify t), (et_simplify t'); try apply annot_sim_refl_list.
+  - rewrite (control_translate_from_map simp_classic _ D Hr).
+    rewrite <- (map_id (control_translate_from _ 0 D)) at 2.
+    apply Forall2_map2. intros a _. apply annot_map_sim.
+  - rewrite (control_translate_from_map simp_classic _ D Hr).
+    rewrite <- (map_id (control_translate_from _ 0 D)) at 1.
+    apply Forall2_map2. intros a _. apply annot_sim_sym, annot_map_sim.
+Qed.
+
+(* two tasks that state the same claim: same specification, program, user guide, proof outline and
+   direction; every flag (simplify, eq-break, decomposition, and also bypass-tightness) is free *)
+Definition same_claim (t t' : ext_task) : Prop :=
+  et_specification t = et_specification t' /\ et_program t = et_program t' /\
+  et_user_guide t = et_user_guide t' /\ et_proof_outline t = et_proof_outline t' /\
+  et_direction t = et_direction t'.
+
+Theorem external_flags_partial t t' w pbs w' pbs' :
+  same_claim t t' ->
+  decompose_ext t = Ok (w, pbs) -> decompose_ext t' = Ok (w', pbs') ->
+  (forall vt, task_validated t = Some vt -> validated_no_clash vt) ->
+  (forall vt, task_validated t' = Some vt -> validated_no_clash vt) ->
+  forall FI M, refutes_some FI M pbs <-> refutes_some FI M pbs'.
+Proof.
+  intros [Es [Ep [Eu [Eo Ed]]]] Hd Hd' Hn Hn' FI M.
+  destruct (external_task_validated t w pbs Hd) as [vt [w3 [Hv Hvd]]].
+  destruct (external_task_validated t' w' pbs' Hd') as [vt' [w3' [Hv' Hvd']]].
+  specialize (Hn vt Hv). specialize (Hn' vt' Hv').
+  unfold task_validated in Hv, Hv'.
+  destruct (side_left t) as [lft|] eqn:EL; [|discriminate].
+  destruct (side_right t) as [rgt|] eqn:ER; [|discriminate].
+  destruct (side_left t') as [lft'|] eqn:EL'; [|discriminate].
+  destruct (side_right t') as [rgt'|] eqn:ER'; [|discriminate].
+  assert (Em : task_m t = task_m t') by (unfold task_m; rewrite Eu; reflexivity).
+  assert (Er : task_renaming t = task_renaming t').
+  { unfold task_renaming, task_spec_private, task_prog_private. rewrite Es, Ep, Eu. reflexivity. }
+  rewrite <- Eu, <- Em, <- Eo in Hv'.
+  destruct (user_guide_assumptions _ _ _ [] []) as [[uga w1]|e|]; try discriminate.
+  destruct (from_specification _ (task_taken t lft rgt) _) as [[o pw]|e|] eqn:Eo1; try discriminate.
+  destruct (from_specification _ (task_taken t' lft' rgt') _) as [[o' pw']|e|] eqn:Eo2; try discriminate.
+  pose proof (from_specification_indep _ _ _ _ _ _ _ _ Eo1 Eo2) as <-.
+  injection Hv as <-. injection Hv' as <-.
+  assert (SL : Forall2 annot_sim lft lft').
+  { unfold side_left in EL, EL'. rewrite <- Es in EL'. destruct (et_specification t) as [p|s].
+    - destruct (translate t (task_m t) p) as [th|] eqn:T; [|discriminate].
+      destruct (translate t' (task_m t') p) as [th'|] eqn:T'; [|discriminate].
+      injection EL as <-. injection EL' as <-. eapply translate_sim; eauto.
+    - rewrite <- Em in EL'. injection EL as <-. injection EL' as <-. apply annot_sim_refl_list. }
+  assert (SR : Forall2 annot_sim rgt rgt').
+  { unfold side_right in ER, ER'. rewrite <- Ep, <- Er in ER'.
+    destruct (translate t (task_m t) (et_program t)) as [th|] eqn:T; [|discriminate].
+    destruct (translate t' (task_m t') (et_program t)) as [th'|] eqn:T'; [|discriminate].
+    injection ER as <-. injection ER' as <-.
+    apply (Forall2_map_both annot_sim annot_sim); [intros x y; apply annot_sim_rename|].
+    eapply translate_sim; eauto. }
+  eapply external_sim; [| | | | |exact Hvd|exact Hvd'|exact Hn|exact Hn']; cbn; auto.
+Qed.
+End Task.
